@@ -2,7 +2,7 @@
 (***************************************************************************)
 (* C06: one event per format request executed by the real library.         *)
 (***************************************************************************)
-EXTENDS Integers, Sequences, FiniteSets, TLC, Json, IOUtils, Format
+EXTENDS Integers, Sequences, FiniteSets, TLC, Json, IOUtils, Format, FormatImpl
 
 VARIABLES l
 Rec == ndJsonDeserialize(IOEnv.TRACE)
@@ -35,11 +35,27 @@ RunViol(e) ==
                          \cup Tag("C06.regions_fit", Leq(Add(FirstData(b), MulSmall(n, b.spc)), Total(b)))
                        : x \in {<<e.blo, e.lo>>, <<e.bhi, e.hi>>}})
 
+\* conformance of the code to FormatImpl (the layout computation as the code performs it): a difference is model drift, not a verdict
+Pow2C == {512, 1024, 2048, 4096, 8192, 16384, 32768}
+Modelled(q) == ReqBps(q) \in {512, 1024, 2048, 4096} /\ ReqFats(q) \in {1, 2} /\ (("bpc" \in DOMAIN q) => q.bpc \in Pow2C \cup {256})
+               /\ (("ft" \in DOMAIN q) => q.ft \in {12, 16, 32}) /\ Lt(q.T, Two32) /\ ~Eq(q.T, Zero)
+MReq(q) == LET base == [T |-> q.T, bps |-> ReqBps(q), fats |-> ReqFats(q), root |-> ReqRoot(q)]
+               o1 == IF "bpc" \in DOMAIN q THEN [x \in DOMAIN base \cup {"bpc"} |-> IF x = "bpc" THEN q.bpc ELSE base[x]] ELSE base
+           IN IF "ft" \in DOMAIN q THEN [x \in DOMAIN o1 \cup {"ft"} |-> IF x = "ft" THEN q.ft ELSE o1[x]] ELSE o1
+FDrift(e) ==
+   IF e.op # "fmt" \/ e.r.k \notin {"ok", "err"} \/ ~Modelled(e.req) THEN {}
+   ELSE LET m == Layout(MReq(e.req)) IN
+        IF (e.r.k = "ok") # (m.k = "ok") THEN {"B.format"}
+        ELSE IF e.r.k = "ok" /\ ~(\A f \in {"bps", "spc", "rsvd", "nfats", "rootn", "ts16", "ts32", "spf16", "spf32"} : e.b[f] = m.b[f]) THEN {"B.layout"}
+        ELSE {}
+
 Init == l = 1
 Next ==
    /\ l <= Len(Rec)
    /\ l' = l + 1
-   /\ LET e == Rec[l] IN \A t \in Viol(e) \cup RunViol(e) : PrintT(<<"VIOL", t, e.pid, e.i, "fmt">>)
+   /\ LET e == Rec[l] IN
+         /\ \A t \in Viol(e) \cup RunViol(e) : PrintT(<<"VIOL", t, e.pid, e.i, "fmt">>)
+         /\ \A t \in FDrift(e) : PrintT(<<"NOTE", t, e.pid, e.i, "fmt">>)
 Spec == Init /\ [][Next]_l
 TraceAccepted == TLCGet("stats").diameter = Len(Rec) + 1
 =============================================================================
